@@ -367,7 +367,8 @@ func (r *Run) Finish() int {
 	b, _ := json.MarshalIndent(evid, "", " ")
 	dir := filepath.Join(OutRoot(), "evidence")
 	_ = os.MkdirAll(dir, 0o755)
-	if err := os.WriteFile(filepath.Join(dir, r.ID+".json"), append(b, '\n'), 0o644); err != nil {
+	// a --replay invocation must not overwrite the evidence of the last real run
+	if err := os.WriteFile(filepath.Join(dir, r.ID+os.Getenv("VERIF_EVIDENCE_SUFFIX")+".json"), append(b, '\n'), 0o644); err != nil {
 		fmt.Fprintf(os.Stderr, "evidence: %v\n", err)
 		return ExitBroken
 	}
